@@ -24,4 +24,3 @@ Definition g_reparse (s : bytes) : bool :=
 
 (** known finding: some borrowed position of some inventory of the object is spelled with an escape *)
 Definition g_known_escape (invs : list bytes) : bool := existsb c07_escaped_string invs.
-
